@@ -1250,6 +1250,13 @@ rrul_fill_mly(echs_instant_t *restrict tgt, size_t nti, rrulsp_t rr)
 	with (int tmp) {
 		tmp = echs_shift_dvalue(rr->shift) +
 			echs_shift_bvalue(rr->shift) * 7 / 5;
+		if (echs_shift_bday_p(rr->shift) &&
+		    !echs_shift_neg_p(rr->shift)) {
+			/* a weekend date first hops up to two days forward,
+			 * and the estimate above rounds down; even 0B moves
+			 * a month's last weekend into the next month */
+			tmp += 3;
+		}
 
 		/* months to start earlier (or later for a negative shift),
 		 * in whole periods, INTERVAL counts from the proto month */
